@@ -35,6 +35,8 @@ func errTag(err error) string {
 
 func runCase(id int, name []byte, cfg [][2]string) {
 	var cfgParts []string
+	nameCopy := append([]byte(nil), name...)
+	name = append(make([]byte, 0, len(name)+8), name...) // private buffer with spare capacity
 	res := &benchfmt.Result{Name: benchfmt.Name(name)}
 	for _, kv := range cfg {
 		res.SetConfig(kv[0], kv[1])
@@ -118,7 +120,12 @@ func runCase(id int, name []byte, cfg [][2]string) {
 	}
 	line := "base=" + hx.Hex(base) + " base2=" + hx.Hex(base2) + " parts=" + hx.HexList(parts) + " vals=" + strings.Join(vals, ",")
 	hx.Printf("obs %d %s fx=%s pub=%s\n", id, line, strings.Join(fx, ","), pub)
-	hx.Printf("sobs %d %s fx=%s flt=%s\n", id, line, strings.Join(fx, ","), flt)
+	// none of the calls above may have written to the name they were given
+	in := "kept"
+	if string(res.Name) != string(nameCopy) {
+		in = "mutated"
+	}
+	hx.Printf("sobs %d %s fx=%s flt=%s in=%s\n", id, line, strings.Join(fx, ","), flt, in)
 }
 
 // cfgCase exercises configuration built through the API (SetConfig incl. deletion, Clone, edits
